@@ -40,8 +40,27 @@ def main(argv):
         rec['idx'] = idx
       except CaseTimeout:
         rec = {'idx': idx, 'timeout': True}
-      except Exception:  # pylint: disable=broad-except
-        rec = {'idx': idx, 'harness_error': traceback.format_exc()}
+      except Exception as e:  # pylint: disable=broad-except
+        # An exception nobody anticipated. If it was raised by the tree under test (innermost frame inside the
+        # repository) at a point where every validated execution of the unchanged tree returned normally, it is
+        # reported as a violation with the frame as witness; if it comes from the harness itself it is a harness
+        # error (inconclusive).
+        from mmv import util  # pylint: disable=g-import-not-at-top
+        tb = traceback.extract_tb(e.__traceback__)
+        root = os.path.join(bootstrap.REPO_DIR, 'matched_markets')
+        last = tb[-1] if tb else None
+        in_repo = [f for f in tb if os.path.abspath(f.filename).startswith(root)]
+        if last is not None and in_repo and (os.path.abspath(last.filename).startswith(root) or 'site-packages' in last.filename):
+          fr = in_repo[-1]
+          rec = {'idx': idx, 'nontrivial': False, 'fp': 'exc-%d' % idx, 'classes': ['unexpected-exception'], 'counters': {},
+                 'violations': [{'clause': 'unexpected-exception',
+                                 'mech': 'unexpected:%s@%s:%s' % (type(e).__name__, os.path.basename(fr.filename), fr.name),
+                                 'detail': 'the tree under test raised %s: %s at %s:%d (%s) where the harness expected a normal return; %s' % (
+                                     type(e).__name__, str(e)[:200], os.path.basename(fr.filename), fr.lineno, fr.name,
+                                     ' <- '.join('%s:%d' % (os.path.basename(f.filename), f.lineno) for f in tb[-4:]))}],
+                 'sample': None}
+        else:
+          rec = {'idx': idx, 'harness_error': traceback.format_exc()}
       f.write(json.dumps(rec, default=str) + '\n')
       f.flush()
   return 0
